@@ -125,6 +125,15 @@ fn install_panic_hook() {
     });
 }
 
+/// Runs repository code outside of a simulated run (no arena, real clock) catching a panic quietly.
+pub fn catch_quiet<T>(f: impl FnOnce() -> T) -> Result<T, PanicInfo> {
+    install_panic_hook();
+    let before = QUIET_PANIC.with(|q| q.replace(true));
+    let result = catch_unwind(AssertUnwindSafe(f));
+    QUIET_PANIC.with(|q| q.set(before));
+    result.map_err(|_| LAST_PANIC.with(|p| p.borrow_mut().take()).unwrap_or(PanicInfo { message: "<unknown panic>".into(), location: String::new() }))
+}
+
 /// Executes `f` as one simulated run. `f` must hand back only memory allocated under
 /// `sys::monitor` (the arena is reset after the run; a leak is reported via `arena_live`).
 pub fn run_sim<T: Send>(spec: &RunSpec, f: impl FnOnce() -> T + Send) -> RunOutcome<T> {
